@@ -131,6 +131,24 @@ func (g *vfGen) genC18() {
 		}
 		g.emit(vfOp("det", "Tar", a[:512], 0))
 		g.emit(vfOp("det", "Tar", a[:511], 0))
+		// other spellings of the same checksum value, and near misses: leading blanks and NULs, a NUL in the middle
+		// of the field (the parser stops there), trailing garbage behind it, seven and eight digits
+		if i%3 == 0 {
+			field := string(a[148:156])
+			digits := strings.TrimLeft(strings.Trim(field, " \x00"), "0")
+			for _, f := range []string{digits + "\x007 ", " " + digits + "\x00\x00", "\x00" + digits + " \x00", digits + "  ", digits + "\x00\x00", "0" + digits + "\x00", digits + "\x0012",
+				digits + "8", digits + "\x00" + digits, "0000000" + digits, " \x00 " + digits, digits + " 1"} {
+				for len(f) < 8 {
+					f = "0" + f
+				}
+				if len(f) > 8 {
+					f = f[len(f)-8:]
+				}
+				c := append([]byte{}, a[:512]...)
+				copy(c[148:156], f)
+				g.emit(vfOp("det", "Tar", c, 0))
+			}
+		}
 		// single-byte corruptions of the first block outside the checksum field
 		exhaustive := g.thorough && i < 3
 		if exhaustive {
